@@ -746,6 +746,144 @@ theorem status_line_whole_stream (B : Nat) (hB : 2 ≤ B) (a : ARd) (hg : Good B
   rw [g2, g1]
   exact ⟨hr, hb⟩
 
+/-! ### the whole response head -/
+
+theorem peekTail (B : Nat) (x : ARd) (hg : Good B x.rd) (hne : x.rd.buf = [] → x.rd.bytes = []) :
+    Good B (if x.rd.buf.length < 1 then clearErr x else x).rd ∧
+    (if x.rd.buf.length < 1 then clearErr x else x).rd.bytes = x.rd.bytes ∧
+    (if x.rd.buf.length < 1 then clearErr x else x).rd.buf.head? = x.rd.bytes.head? := by
+  by_cases hb : x.rd.buf.length < 1
+  · have hbuf : x.rd.buf = [] := List.eq_nil_of_length_eq_zero (by omega)
+    rw [if_pos hb]
+    refine ⟨⟨hg.clean, Or.inl rfl, hg.len, by simp [clearErr]⟩, by simp [clearErr, Rd.bytes], ?_⟩
+    rw [hne hbuf]
+    simp [clearErr, hbuf]
+  · rw [if_neg hb]
+    refine ⟨hg, rfl, ?_⟩
+    cases hq : x.rd.buf with
+    | nil => rw [hq] at hb; simp at hb
+    | cons c t => simp [Rd.bytes, hq]
+
+theorem apeek1_good (B : Nat) (hB : 0 < B) (a : ARd) (hg : Good B a.rd) :
+    Good B (apeek1 B a).rd ∧ (apeek1 B a).rd.bytes = a.rd.bytes ∧
+    (apeek1 B a).rd.buf.head? = a.rd.bytes.head? := by
+  unfold apeek1
+  by_cases hc : a.rd.buf.length < 1 ∧ 0 < B ∧ a.rd.err = none
+  · simp only [hc, and_self, if_true]
+    have hbuf : a.rd.buf = [] := List.eq_nil_of_length_eq_zero (by omega)
+    obtain ⟨hg1, hb1, d, hd, hcase⟩ := fill_good B a.rd hg hc.2.2 (by rw [hbuf]; exact hB)
+    rw [hbuf, List.nil_append] at hd
+    have hfill : (afill B a).rd = fill B a.rd := rfl
+    have := peekTail B (afill B a) (by rw [hfill]; exact hg1) (by
+      rw [hfill]
+      intro h0
+      rcases hcase with ⟨hdne, _⟩ | ⟨_, _, _, hs1⟩
+      · rw [hd] at h0; exact absurd h0 hdne
+      · simp [Rd.bytes, h0, hs1, srcBytes])
+    rw [hfill, hb1] at this
+    exact this
+  · rw [if_neg hc]
+    apply peekTail B a hg
+    intro hbuf
+    have he : a.rd.err ≠ none := by
+      intro he
+      exact hc ⟨by rw [hbuf]; simp, hB, he⟩
+    rcases hg.err with h0 | ⟨_, h2⟩
+    · exact absurd h0 he
+    · simp [Rd.bytes, hbuf, h2, srcBytes]
+
+/-- **response_head_incremental_is_whole_stream.** `_readResponse`'s head over the aliasing reader
+(every `B ≥ 2`, every clean segmentation) = `parseHeadE B` on the bytes: same accept/reject, error
+class, status line, header map, `Close`, `ContentLength`, `TransferEncoding`, framing decision and
+unread rest — whenever the header block does not start with a blank (that rejection path is
+`initialBlankClass` on the whole-stream side only). -/
+theorem response_head_incremental_is_whole_stream (B : Nat) (hB : 2 ≤ B) (isHead : Bool) (a : ARd)
+    (hg : Good B a.rd) (r : Except ErrClass (Msg × ARd)) (h : aparseHead B isHead a = some r) :
+    (match r with
+      | .ok (m, a') => Except.ok (m, a'.rd.bytes)
+      | .error e => Except.error e) = parseHeadE B isHead a.rd.bytes := by
+  obtain ⟨g1, g2⟩ := readLineSlice_view B a
+  obtain ⟨hw1, hw2⟩ := readLineSlice_whole B hB a.rd hg
+  unfold aparseHead at h
+  unfold parseHeadE
+  cases hl : areadLineSlice B a with
+  | mk res a1 =>
+    rw [hl] at h g1 g2
+    simp only at h g1 g2
+    cases hx : readLineB B a.rd.bytes with
+    | none =>
+      obtain ⟨hr, _, _⟩ := hw2 hx
+      rw [← g2] at hr
+      cases res with
+      | ok ln => simp [resGet] at hr
+      | error e =>
+        simp only [Option.some.injEq] at h
+        subst h
+        rfl
+    | some p =>
+      obtain ⟨line, rest⟩ := p
+      obtain ⟨hr, hgg, hbb⟩ := hw1 line rest hx
+      rw [← g2] at hr
+      rw [← g1] at hgg hbb
+      cases res with
+      | error e => simp [resGet] at hr
+      | ok ln =>
+        simp only [resGet, Res.ok.injEq] at hr
+        simp only [hr] at h
+        simp only
+        cases hsl : parseStatusLine line with
+        | none =>
+          rw [hsl] at h
+          simp only [Option.some.injEq] at h
+          subst h
+          rfl
+        | some sl =>
+          rw [hsl] at h
+          simp only at h ⊢
+          obtain ⟨pg, pb, ph⟩ := apeek1_good B (by omega) a1 hgg
+          rw [hbb] at pb ph
+          split at h
+          · simp at h
+          · next hnb =>
+            rw [ph] at hnb
+            have hmime := head_incremental_is_whole_stream B hB ((apeek1 B a1).rd.bytes.length + 1) []
+              (apeek1 B a1) pg
+            rw [pb] at hmime
+            have hrm : readMIMEHeaderE B rest = mimeLoopE B (rest.length + 1) [] rest := by
+              unfold readMIMEHeaderE
+              cases rest with
+              | nil => simp [mimeLoopE, readLineB]
+              | cons c t =>
+                simp only [List.head?_cons, Option.map_some] at hnb
+                have : isOWS c = false := by
+                  cases hc : isOWS c with
+                  | false => rfl
+                  | true => rw [hc] at hnb; simp at hnb
+                simp [this]
+            rw [hrm, ← hmime]
+            rw [pb] at h
+            cases ham : amimeLoop B (rest.length + 1) [] (apeek1 B a1) with
+            | error e =>
+              rw [ham] at h
+              simp only [Option.some.injEq] at h
+              subst h
+              rfl
+            | ok q =>
+              obtain ⟨hh, a3⟩ := q
+              rw [ham] at h
+              simp only at h ⊢
+              cases hrt : readTransfer isHead sl (fixPragmaCacheControl hh) with
+              | none =>
+                rw [hrt] at h
+                simp only [Option.some.injEq] at h
+                subst h
+                rfl
+              | some m =>
+                rw [hrt] at h
+                simp only [Option.some.injEq] at h
+                subst h
+                rfl
+
 /-! ### non-vacuity -/
 
 /-- "K: v\r\n w\r\n\r\nR" cut into 1-byte segments, 16-byte buffer: one header `K: v w`, rest "R". -/
